@@ -6,20 +6,7 @@ VERIF = os.path.dirname(os.path.dirname(os.path.abspath(__file__)))
 BASE = ("cd /repo && /venv/bin/python -m pytest -ra -q -p no:cacheprovider --timeout=900 "
         "--continue-on-collection-errors")
 
-# property id -> (category, text, note, technique, design_ref); only built checks are listed
-CHECKS = {}
-PENDING = {}
-
-
-def claim(pid, category, text, note, technique, ref):
-    CHECKS[pid] = (category, text, note, technique, ref)
-
-
-def pending(pid, reason):
-    PENDING[pid] = reason
-
-
-from . import manifest_table  # noqa: E402,F401  (fills CHECKS / PENDING)
+from .manifest_table import CHECKS, PENDING
 
 
 def build():
